@@ -433,13 +433,33 @@ def verify(prog, fn, bb, sink, spec, _facts_override=None):
         st = fn.origin(ops[0])
         bounds = st[-1][1][2] if st and st[-1][0] == "agg" and re.search(r"ops::range::Range", st[-1][1][1].get("adt", "") or "") else [ops[0]]
         counters = set()
-        for b in bounds:
+        lower = []  # start bounds that are `counter.saturating_sub(k)`-style values: checked below to be <= the counter
+        for bi_, b in enumerate(bounds):
             bs = fn.origin(b)
             if bs and bs[-1][0] == "const" and const_int(bs[-1][1]) == 0:
                 continue
             if not bs or bs[-1][0] != "multi" or bs[-1][2]:
                 return False, "operand %s is not a plain counter variable" % describe_origin(fn, bs)
-            counters.add(bs[-1][1])
+            if len(bounds) == 2 and bi_ == 0:
+                lower.append(bs[-1][1])
+            else:
+                counters.add(bs[-1][1])
+        for l in lower:
+            if l in counters:
+                continue
+            for (dbb, si, dk, payload) in fn.defs().get(l, []):
+                if fn.is_cleanup(dbb):
+                    continue
+                ds = fn.origin(payload["r"][1]) if dk == "assign" and payload["r"][0] == "use" and payload["r"][1][0] != "k" else None
+                if dk == "assign" and payload["r"][0] == "use" and payload["r"][1][0] == "k" and const_int(payload["r"][1][1]) == 0:
+                    continue
+                if dk == "call":
+                    ds = [("call", Call(fn, dbb, payload, False), [])]
+                if ds and ds[-1][0] == "call" and ds[-1][1].name == "saturating_sub" and ds[-1][1].args:
+                    a0 = fn.origin(ds[-1][1].args[0])
+                    if a0 and a0[-1][0] == "multi" and a0[-1][1] in counters:
+                        continue
+                return False, "the start of the range is not 0 or counter.saturating_sub(k)"
         if len(counters) != 1:
             return False, "operand bounds are not one counter"
         (c,) = tuple(counters)
